@@ -209,6 +209,14 @@ func c05Build() {
 			add(c05case{src: "[1].map(w->try " + cx[1] + " catch \"C\").first()", class: f[1], ctx: "try-in-closure+" + cx[0], expect: "catch", par: cx[2] == "par"})
 		}
 	}
+	// one unevaluated lazy list reached by several goroutines of ONE evaluation (workers of a parallel map,
+	// multiUse consumers): whoever loses the race to evaluate it must not bring the process down
+	for _, n := range []int{1000, 300000} {
+		add(c05case{src: fmt.Sprintf("[let l=numbers(%d).map(x->x+a); numbers(40).map(y->slow(y)+l.size()).sum()][0]", n), class: "shared-lazy-list", ctx: "parallel-map-workers", expect: "any", par: true})
+		add(c05case{src: fmt.Sprintf("numbers(6).map(i->numbers(%d).map(x->x+i)).multiUse({u:l->l.map(q->q.size()).sum(), v:l->l.map(q->q.size()).sum(), w:l->l.map(q->q.size()).sum()}).u", n), class: "shared-lazy-list", ctx: "multiUse-consumers", expect: "any"})
+		add(c05case{src: fmt.Sprintf("[let l=numbers(%d).map(x->x+a); [1,2,3].multiUse({u:q->l.size()+q.size(), v:q->l.sum()+q.size(), w:q->l.size()})][0].u", n), class: "shared-lazy-list", ctx: "multiUse-closures", expect: "any"})
+		add(c05case{src: fmt.Sprintf("[let l=numbers(%d).map(x->x+a); numbers(40).accept(y->slow(y)>=0 & l.size()>0).merge(numbers(40).map(y->slow(y)+l.size()*0),(p,q)->p<q).size()][0]", n), class: "shared-lazy-list", ctx: "merge-sources", expect: "any", par: true})
+	}
 	// deep but finite recursion must succeed or fail cleanly
 	for _, n := range []int{100, 2000, 9000, 20000} {
 		add(c05case{src: fmt.Sprintf("[func f(n) if n<=0 then 0 else f(n-1)+1; f(%d+a*0)][0]", n), class: "finite-recursion", ctx: fmt.Sprintf("depth-%d", n), expect: "any"})
@@ -219,8 +227,10 @@ func c05Build() {
 func (c05) Plan(tier string) wk.Plan {
 	c05once.Do(c05Build)
 	cfgs := []wk.Config{
-		{Name: "seq", CPUs: 1, Shards: 12},
+		{Name: "seq", CPUs: 1, Shards: 8},
 		{Name: "par4", CPUs: 4, Shards: 1},
+		// one scheduler thread on several CPUs: the dependency still starts its workers (it looks at NumCPU)
+		{Name: "par4-gmp1", CPUs: 4, GoMaxProcs: 1, Shards: 1},
 	}
 	if tier == "thorough" {
 		cfgs = []wk.Config{
@@ -291,7 +301,7 @@ func c05State() *c05state {
 func (c05) Run(c *wk.Case) {
 	c05once.Do(c05Build)
 	cs := c05cases[c.Index]
-	sectionC := cs.expect != "any" || strings.HasPrefix(cs.class, "finite-recursion")
+	sectionC := cs.expect != "any" || strings.HasPrefix(cs.class, "finite-recursion") || cs.class == "shared-lazy-list"
 	if c.Config != "seq" && !sectionC {
 		return // sections A and B are schedule independent
 	}
